@@ -85,6 +85,39 @@ def run(ctx):
         # determinism in-process
         if pp.pprint(copy.deepcopy(d1)) != t1:
             ctx.violation("nondeterministic-print", "the same dictionary and options printed differently", {"text": t1, "options": o})
+    # ---- key-value blocks, repeated string keywords, CONFIG and PROJECTION lines x awkward strings: formatted twice
+    # under both output quotes (these values do not go through format_value)
+    n_kv = 0
+    templates = [("MAP METADATA %s %s END END", "metadata"), ("MAP WEB VALIDATION %s %s END END END", "validation"), ("LAYER CONNECTIONOPTIONS %s %s END END", "connectionoptions"),
+                 ("LAYER PROCESSING %s PROCESSING %s END", "processing"), ("MAP CONFIG %s %s END", "config"), ("MAP PROJECTION %s %s END END", "projection"),
+                 ("OUTPUTFORMAT FORMATOPTION %s FORMATOPTION %s END", "formatoption")]
+
+    def q(x):
+        return ('"%s"' % x) if '"' not in x else ("'%s'" % x)
+    for tpl, n in templates:
+        for w in harness.KV_POOL:
+            for quote in ('"', "'"):
+                if quote in w:
+                    continue                      # documented exclusion: the value contains the output quote
+                first = "k_one" if n in ("metadata", "config", "validation", "connectionoptions") else w
+                t = tpl % (q(first), q(w))
+                try:
+                    d = sweep.fast_loads(t)
+                except Exception:
+                    continue
+                pp = PrettyPrinter(quote=quote)
+                try:
+                    t1 = pp.pprint(d)
+                    d1 = sweep.fast_loads(t1)
+                    t2 = pp.pprint(copy.deepcopy(d1))
+                except Exception:
+                    continue                      # C01 / C03 territory
+                n_kv += 1
+                ctx.note_case(("kv-twice", tpl, w, quote))
+                if t2 != t1:
+                    ctx.violation("format-twice-differs:" + n + ":string",
+                                  "dumps(loads(t)) differs from t for the value %r written with quote %s: %r -> %r" % (w, quote, t1, t2), {"text": t1, "options": {"quote": quote}})
+    ctx.count("keyvalue_string_cases", n_kv)
     # ---- determinism across processes / hash seeds
     n_proc = ctx.budget(2, 6)
     sample = cases[:: max(1, len(cases) // 25)][:25]
